@@ -968,7 +968,7 @@ fn family_services(names: &Names, thorough: bool) -> Vec<(Graph, String)> {
         // callers: a fourth decision requiring the service as knowledge
         let direct_opts: Vec<Vec<usize>> = if thorough { vec![vec![], vec![0], vec![2]] } else { vec![vec![], vec![0]] };
         for direct in direct_opts {
-          for style in ["literal", "invocation", "through-knowledge-model", "through-knowledge-model-invocation"] {
+          for style in ["literal", "invocation", "through-knowledge-model", "through-knowledge-model-invocation", "through-knowledge-model-requiring-another-first"] {
             let mut c = h.clone();
             let mut caller = Dec {
               name: names.decs[3].to_string(),
@@ -993,6 +993,22 @@ fn family_services(names: &Names, thorough: bool) -> Vec<(Graph, String)> {
                   name: names.bkms[0].to_string(),
                   bkms: vec![],
                   services: vec![0],
+                  kind: Kind::Literal,
+                });
+              }
+              "through-knowledge-model-requiring-another-first" => {
+                // the knowledge model requires another knowledge model and, after it, the service
+                caller.bkms = vec![0];
+                c.bkms.push(Bk {
+                  name: names.bkms[0].to_string(),
+                  bkms: vec![1],
+                  services: vec![0],
+                  kind: Kind::Literal,
+                });
+                c.bkms.push(Bk {
+                  name: names.bkms[1].to_string(),
+                  bkms: vec![],
+                  services: vec![],
                   kind: Kind::Literal,
                 });
               }
